@@ -7,7 +7,7 @@ from trie.fog import HexaryTrieFog, TrieFrontierCache
 from trie.exceptions import (PerfectVisibility, FullDirectionalVisibility, MissingTraversalNode, TraversedPartialPath)
 
 ID = "C09"
-LEAN_IMPORTS = ["PyTrie.Props.C09", "PyTrie.Props.NonVacuity", "PyTrie.Props.NonVacuity2", "PyTrie.Props.NonVacuity6"]
+LEAN_IMPORTS = ["PyTrie.Props.C09", "PyTrie.Props.NonVacuity", "PyTrie.Props.NonVacuity2", "PyTrie.Props.NonVacuity6", "PyTrie.Props.NonVacuity7"]
 THEOREMS = [
     "PyTrie.Props.C09.step_defined",
     "PyTrie.Props.C09.finds_stable",
@@ -38,6 +38,16 @@ THEOREMS = [
     "PyTrie.Props.NonVacuity6.read_v2_error_eval",
     "PyTrie.Props.NonVacuity6.read6_v5_ok",
     "PyTrie.Props.NonVacuity6.read6_v2_error",
+    "PyTrie.Props.NonVacuity7.walk6_hyps",
+    "PyTrie.Props.NonVacuity7.walk6_raw_steps_refine",
+    "PyTrie.Props.NonVacuity7.walk6_hits_raw",
+    "PyTrie.Props.NonVacuity7.walk6_met",
+    "PyTrie.Props.NonVacuity7.walk6_cache_invariant",
+    "PyTrie.Props.NonVacuity7.stale_hyps",
+    "PyTrie.Props.NonVacuity7.stale_step_missing",
+    "PyTrie.Props.NonVacuity7.stale_step_ok",
+    "PyTrie.Props.NonVacuity7.stale_step_old_version",
+    "PyTrie.Props.NonVacuity7.stale_step_cache_invariant",
     "PyTrie.Props.C09.raw_step_refines",
     "PyTrie.Props.C09.raw_cache_invariant",
 ]
